@@ -80,10 +80,10 @@ func (r *Rand) Range(lo, hi int) int {
 	return lo + r.Intn(hi-lo+1)
 }
 
-func (r *Rand) Bool() bool        { return r.U64()&1 == 1 }
+func (r *Rand) Bool() bool            { return r.U64()&1 == 1 }
 func (r *Rand) Chance(p float64) bool { return r.Float() < p }
-func (r *Rand) Float() float64    { return float64(r.U64()>>11) / float64(1<<53) }
-func (r *Rand) I64() int64        { return int64(r.U64()) }
+func (r *Rand) Float() float64        { return float64(r.U64()>>11) / float64(1<<53) }
+func (r *Rand) I64() int64            { return int64(r.U64()) }
 
 // Pick returns one element of a string list.
 func (r *Rand) Pick(xs []string) string { return xs[r.Intn(len(xs))] }
@@ -126,23 +126,23 @@ type Violation struct {
 
 // Result is what one shard writes; the orchestrator merges shards.
 type Result struct {
-	Property     string           `json:"property"`
-	Tier         string           `json:"tier"`
-	Seed         uint64           `json:"seed"`
-	Shard        int              `json:"shard"`
-	Shards       int              `json:"shards"`
-	Flavour      string           `json:"flavour"`
-	Evaluations  int64            `json:"evaluations"`
-	Nontrivial   []string         `json:"nontrivial"` // hex hashes (distinct)
-	Samples      []any            `json:"samples"`
-	Counters     map[string]int64 `json:"counters"`
+	Property     string              `json:"property"`
+	Tier         string              `json:"tier"`
+	Seed         uint64              `json:"seed"`
+	Shard        int                 `json:"shard"`
+	Shards       int                 `json:"shards"`
+	Flavour      string              `json:"flavour"`
+	Evaluations  int64               `json:"evaluations"`
+	Nontrivial   []string            `json:"nontrivial"` // hex hashes (distinct)
+	Samples      []any               `json:"samples"`
+	Counters     map[string]int64    `json:"counters"`
 	Sets         map[string][]string `json:"sets"` // named distinct-sets (interleavings, configs ...)
-	Violations   []Violation      `json:"violations"`
-	KnownHits    []Violation      `json:"known_hits"`
-	Inconclusive []string         `json:"inconclusive"`
-	Notes        []string         `json:"notes"`
-	Completed    bool             `json:"completed"`
-	WallS        float64          `json:"wall_s"`
+	Violations   []Violation         `json:"violations"`
+	KnownHits    []Violation         `json:"known_hits"`
+	Inconclusive []string            `json:"inconclusive"`
+	Notes        []string            `json:"notes"`
+	Completed    bool                `json:"completed"`
+	WallS        float64             `json:"wall_s"`
 }
 
 // KnownFinding is one entry of /verif/known_findings.json.
@@ -169,19 +169,19 @@ type Ctx struct {
 	RareBin  string // path of the CLI built from /repo (may be empty)
 	RareRace string
 
-	mu       sync.Mutex
-	res      Result
-	nontriv  map[[8]byte]struct{}
-	sets     map[string]map[string]struct{}
-	journal  *os.File
-	known    []KnownFinding
-	start    time.Time
-	maxViol  int
+	mu      sync.Mutex
+	res     Result
+	nontriv map[[8]byte]struct{}
+	sets    map[string]map[string]struct{}
+	journal *os.File
+	known   []KnownFinding
+	start   time.Time
+	maxViol int
 
 	// watchdog
-	caseStart  atomic.Int64 // unix nano; 0 = idle
-	caseLimit  atomic.Int64 // nanoseconds
-	lastCase   atomic.Value // string (json)
+	caseStart atomic.Int64 // unix nano; 0 = idle
+	caseLimit atomic.Int64 // nanoseconds
+	lastCase  atomic.Value // string (json)
 }
 
 // Thorough reports whether the thorough tier was requested.
